@@ -6,6 +6,11 @@ every text over {a,b} of length Lmin..Lmax cut into windows of every width/overl
 deleted character inside an overlap.  Each list is merged with logits of exactly len rows and of len+2 rows; row i of part
 p is the vector (p, i), so the provenance of every merged row is observable.
 
+(d) end to end: the REAL BaseEngineLineOCR.process_lines(model_type="transformer") (real constructor, real window splitting with 25 %
+overlap, real span bookkeeping and merge) around a stub run_ocr that reads characters painted into the line images: ALL ordered lists of
+1..2 (quick) / 1..3 (thorough) lines over a 9-text alphabet (shorter / equal / longer than the maximal line width, periodic text, a blank
+stretch that yields an empty part) x batch size {1, 4}.
+
 Oracle: a boring reference model with explicit slice arithmetic (cut ceil(o/2) characters from the text merged so far,
 floor(o/2) from the next part; o = overlap detected between the text merged so far and the next part).
 """
@@ -16,12 +21,12 @@ import numpy as np
 ID = 'C15'
 
 MANIFEST = dict(
-    technique='explicit-state enumeration of all part lists (input tree) and all window splittings; real merge_transcriptions_and_logits vs a reference model with provenance-tagged logits',
-    text='Bounded exhaustive: every list of 1-3 parts of length 0-3 over {a,b}, every pair of parts up to length 4 over {a,b,c}, and every window splitting (all widths/overlaps, clean or with one noisy character in an overlap) of every text over {a,b} of length 5-7 (quick) / 5-9 (thorough); text and provenance-tagged logits of the real merge must equal the reference model, and the statement-level facts (length = sum of parts minus overlaps, one logit row per character, first/last part kept, zero overlap = concatenation) are checked separately.',
+    technique='explicit-state enumeration of all part lists (input tree), all window splittings, and all short line lists through the real process_lines(model_type=transformer) with a stub run_ocr; real merge vs a reference model with provenance-tagged logits',
+    text='Bounded exhaustive: every list of 1-3 parts of length 0-3 over {a,b}, every pair of parts up to length 4 over {a,b,c}, and every window splitting (all widths/overlaps, clean or with one noisy character in an overlap) of every text over {a,b} of length 5-7 (quick) / 5-9 (thorough); text and provenance-tagged logits of the real merge must equal the reference model, and the statement-level facts (length = sum of parts minus overlaps, one logit row per character, first/last part kept, zero overlap = concatenation) are checked separately; every list of 1-2 (quick) / 1-3 (thorough) painted lines over a 9-text alphabet goes through the real window splitting, span bookkeeping and merge of process_lines, and each line must equal the reference merge of its own windows.',
     note='The overlap detector (find_best_overlap) is taken from the implementation and only sanity-checked (range, CER<1); alphabet and lengths are bounded.',
     ref='3/C15')
 
-BOUNDS = {'quick': dict(Lmin=5, Lmax=7, pair_len=4), 'thorough': dict(Lmin=5, Lmax=9, pair_len=5)}
+BOUNDS = {'quick': dict(Lmin=5, Lmax=7, pair_len=4, engine_lines=2), 'thorough': dict(Lmin=5, Lmax=9, pair_len=5, engine_lines=3)}
 BOUNDS['replay'] = BOUNDS['quick']
 
 
@@ -45,7 +50,110 @@ def shards(tier):
     for L in range(b['Lmin'], b['Lmax'] + 1):
         for w in range(2, L):
             out.append({'kind': 'windows', 'L': L, 'w': w})
+    for f in range(len(ENGINE_TEXTS)):
+        out.append({'kind': 'engine', 'first': f})
     return out
+
+
+CW = 8                       # pixels per painted character
+MLW = 64                     # max_line_width of the stub engine: 8 characters per window, overlap 2, step 6
+ENGINE_TEXTS = ['abc', 'abcdefgh', 'abcdefghi', 'qrstuvwxyzabcd', 'hgfedcbazyxwvut', 'mnopqrstuvwxyzabcdefghij', 'abababababababab',
+                'abcdefghijkl________mnopqr', 'zyxwvutsrqponmlkjihgfedcbaz']
+
+
+def engine_windows(text):
+    n, ov = MLW // CW, (MLW // 4) // CW
+    if len(text) <= n:
+        return [text]
+    parts, start, end = [], 0, n
+    while end < len(text):
+        parts.append(text[start:end])
+        start += n - ov
+        end += n - ov
+    parts.append(text[start:end])
+    return parts
+
+
+def paint_text(text):
+    img = np.zeros((8, CW * len(text), 3), dtype=np.uint8)
+    for k, ch in enumerate(text):
+        if ch != '_':
+            img[:, CW * k:CW * (k + 1), :] = ord(ch) - 96
+    return img
+
+
+def make_stub_engine(batch_size):
+    import json
+    import os
+    import torch
+    from pero_ocr.ocr_engine.line_ocr_engine import BaseEngineLineOCR
+    d = '/verif/.cache/stubs'
+    os.makedirs(d, exist_ok=True)
+    js = os.path.join(d, f'c15-transformer-{os.getpid()}.json')
+    with open(js, 'w') as f:
+        json.dump({'line_px_height': 8, 'line_vertical_scale': 1.0, 'checkpoint': 'none.pt', 'characters': [chr(97 + i) for i in range(26)],
+                   'net_name': 'stub', 'max_line_width': MLW}, f)
+    eng = BaseEngineLineOCR(js, torch.device('cpu'), batch_size=batch_size, model_type='transformer')
+    os.remove(js)
+    seen = []
+
+    def run_ocr(batch_data):
+        pad = eng.line_padding_px
+        texts, logits = [], []
+        for row in batch_data:
+            vals = row[4, pad + CW // 2::CW, 0]
+            t = ''.join(chr(96 + int(v)) for v in vals if v > 0)
+            texts.append(t)
+            lg = np.full((len(t) + 1, 28), -5.0, dtype=np.float32)
+            for i, ch in enumerate(t):
+                lg[i, ord(ch) - 97] = 5.0 + 0.01 * i
+            logits.append(lg)
+        seen.append(list(texts))
+        return texts, logits
+    eng.run_ocr = run_ocr
+    return eng, seen
+
+
+def check_engine(case, ctx):
+    from pero_ocr.ocr_engine.line_ocr_engine import find_best_overlap
+    texts = [ENGINE_TEXTS[i] for i in case['engine']]
+    ctx.state(('engine', tuple(case['engine']), case['bs']))
+    eng, seen = make_stub_engine(case['bs'])
+    tr, lg, co = eng.process_lines([paint_text(t) for t in texts])
+    ctx.executed()
+    desc = f'process_lines(model_type=transformer, max_line_width={MLW}) on painted texts {texts}, batch_size={case["bs"]}'
+    if len(tr) != len(texts):
+        ctx.violation('text-kept', f'{ID}/engine/result-count', f'{desc}: {len(tr)} results')
+        return
+    for k, text in enumerate(texts):
+        parts = [p.replace('_', '') for p in engine_windows(text)]
+        ref = parts[0]
+        overlaps = []
+        for nxt in parts[1:]:
+            o = int(find_best_overlap(ref, nxt))
+            overlaps.append(o)
+            ref = ref[:len(ref) - (o + 1) // 2] + nxt[o // 2:]
+        if tr[k] != ref:
+            ctx.violation('text-kept', f'{ID}/engine/line-text-differs-from-merge-of-its-windows',
+                          f'{desc}: line {k} -> {tr[k]!r}; its windows {parts} merge (overlaps {overlaps}) to {ref!r}')
+            return
+        rows = lg[k].shape[0]
+        if rows != len(tr[k]) or list(co[k]) != [0, len(tr[k])]:
+            ctx.violation('one-logit-row-per-character', f'{ID}/engine/logit-rows-or-window',
+                          f'{desc}: line {k}: {rows} logit rows, window {co[k]} for {len(tr[k])} characters')
+            return
+        dense = np.asarray(lg[k].toarray()) if hasattr(lg[k], 'toarray') else np.asarray(lg[k])
+        got = ''.join(chr(97 + int(np.argmax(np.where(r == 0, -80, r)))) for r in dense)
+        if got != tr[k]:
+            ctx.violation('one-logit-row-per-character', f'{ID}/engine/logit-rows-do-not-spell-the-text', f'{desc}: line {k}: rows spell {got!r}, text {tr[k]!r}')
+            return
+        if len(parts) > 1:
+            ctx.nontrivial(('engine', tuple(case['engine']), case['bs'], k), 'split-lines-merged')
+        if '' in parts:
+            ctx.tag('engine-empty-part')
+        if len(parts) > 1 and ref == text.replace('_', ''):
+            ctx.tag('engine-merge-restores-the-text')
+    ctx.outcome(('engine', tuple(len(t) for t in tr)))
 
 
 def windows(text, w, step):
@@ -77,6 +185,12 @@ def run_shard(shard, ctx, tier):
         for a in P[shard['lo']:shard['hi']]:
             for c in P:
                 guarded_check(mod, {'parts': [a, c]}, ctx)
+    elif shard['kind'] == 'engine':
+        n = len(ENGINE_TEXTS)
+        for L in range(1, b['engine_lines'] + 1):
+            for rest in itertools.product(range(n), repeat=L - 1):
+                for bs in (1, 4):
+                    guarded_check(mod, {'engine': [shard['first']] + list(rest), 'bs': bs}, ctx)
     else:
         L, w = shard['L'], shard['w']
         for tx in itertools.product('ab', repeat=L):
@@ -115,6 +229,8 @@ def make_logits(parts, extra):
 
 
 def check_case(case, ctx):
+    if 'engine' in case:
+        return check_engine(case, ctx)
     from pero_ocr.ocr_engine.line_ocr_engine import merge_transcriptions_and_logits, find_best_overlap
     parts = case['parts']
     ctx.state(tuple(parts))
@@ -189,5 +305,6 @@ def describe(tier):
                 'Non-trivial: a list whose merges have both a zero and a positive detected overlap.',
         'bounds': BOUNDS[tier], 'alphabets': {'lists': 'ab', 'pairs': 'abc', 'windows': 'ab (+c as noise)'},
         'assumptions': ['the detected overlap is the implementation\'s find_best_overlap (sanity-checked only)'],
-        'min_nontrivial': 20, 'required_tags': ['zero-overlap', 'odd-overlap', 'empty-part', 'noisy-overlap'],
+        'min_nontrivial': 20, 'required_tags': ['zero-overlap', 'odd-overlap', 'empty-part', 'noisy-overlap', 'split-lines-merged', 'engine-empty-part',
+                          'engine-merge-restores-the-text'],
     }
